@@ -241,6 +241,9 @@ func checkPairing(e *Env, rule string, sp PairSpec) int {
 	for _, g := range core.WithAnon(f) {
 		for _, site := range core.Calls(g, func(nm string, c ssa.CallInstruction) bool {
 			_, ok := storingMethods[nm]
+			if !ok && sp.Policy == "first-wins" && nm == "pkg/sync.Map.ReplaceWithFunc" {
+				ok = true // create-or-join written with the general update primitive (one critical section, the callback decides)
+			}
 			return ok && tableOf(c) == sp.Table
 		}) {
 			n++
